@@ -29,6 +29,7 @@ import (
 //gosym:cover foreign-crd-live foreign-crd-deleting own-crd uncontrolled-crd-adopted fault-hit
 func HarnessC02Offered() {
 	s := zzStore()
+	s.PreserveStatus = true // CRDs have a status subresource: applying the rendered CRD keeps Established
 	d := zzXRD()
 	deleting := zz.Bool("xrd.deleting")
 	if zz.Bool("xrd.hasFinalizer") || deleting {
